@@ -294,6 +294,8 @@ impl Prop for Equiv {
             defeated: 5,
             repeated_line: false,
             attacker_defeated: false,
+            fillers: 0,
+            split: 0,
         }));
         (v, format!("all digraphs on 0..={} arguments, direct and ICCMA presentations; one grounded-decided framework of 2^20+12 arguments", max))
     }
